@@ -207,8 +207,24 @@ def t_names():
     return stats
 
 
+def t_digits():
+    """indices and slice bounds spelled with non-ASCII decimal digits, on objects that have members named by each spelling"""
+    from .c10 import DIGIT_SHAPES, DIGIT_SPELLINGS, digit_doc
+    stats = Stats()
+    n = 0
+    doc = digit_doc()
+    for sp in DIGIT_SPELLINGS:
+        for shp in DIGIT_SHAPES:
+            for d in (doc, doc["o"], doc["l"]):
+                ms = check_matches(stats, shp % sp, d, "digits")
+                n += len(ms)
+        stats.nt("digits", sp)
+    stats.subspaces.append({"name": "13 digit spellings x 11 positions x 3 documents with members named by every spelling", "size": n, "exhaustive": True})
+    return stats
+
+
 def tasks(tier, seed):
-    ts = [{"name": "names", "fn": "t_names"}]
+    ts = [{"name": "names", "fn": "t_names"}, {"name": "digits", "fn": "t_digits"}]
     n = 1800 if tier == "quick" else 40000
     for k in range(16):
         ts.append({"name": "random-%d" % k, "fn": "t_random", "kw": {"seed": mix(seed, ID, k), "n": n}})
